@@ -98,7 +98,7 @@ class Slicer:
                     inner_counts = any(x[0] == "id" and x[1] in self.counts for x in _tokens(self.m[a + s + 1:a + e - 1]))
                     saw_count = saw_count or inner_counts or "args" in self.m[a + s:a + e]
             elif kind == "p":
-                if t not in ("==", "!=", "<", ">", "<=", ">=", "&&", "||", "!", "..=", "..", ".", "&", "+", "-", "*", "%"):
+                if t not in ("==", "!=", "<", ">", "<=", ">=", "&&", "||", "!", "..=", "..", ".", "&", "+", "-", "*", "%", "/"):
                     return False
             k += 1
         return saw_count
